@@ -31,6 +31,9 @@ EXPLANATION += (
 EXPLANATION += (
     ' C04.9: every decode of bytes fetched from a footer array (range read at a template FileOffset) is a signed 32-bit decode (np.frombuffer int32 or the signed codec).'
 )
+EXPLANATION += (
+    ' C04.11 - the header arrays are found behind the data section, so the data-section size the fresh header states must be that of the blocks written: rate * prod over the axes of (count padded to the blockshape component of the same axis) / (8*DISK); formulas over a local chosen per geometry are evaluated per arm, products over a display are written out (rule of C03.4 / C19.5).'
+)
 ASSUMPTIONS = [
     'segyio returns what the file holds; segyio.TraceField enumerates the 89 SEG-Y trace header fields in ascending byte order',
     'the reader assigns footer offsets in the order of the header-word table, which lists the fields in ascending order',
@@ -144,6 +147,12 @@ def run(ctx):
     roles = WR.footer_location(ctx, ht, 'C04.10')
     WR.size_attr_uses(ctx, ht, 'C04.10', roles)
     ctx.floor('C04.10', 7, 'wiring facts')
+    # the stored header arrays are looked up behind the data section: the size the fresh header states for it must be that
+    # of the blocks written (per axis: count padded to the blockshape component of that axis)
+    ctx.rule('C04.11', 'the data-section size stated by the fresh header (which locates the header arrays) pads every axis to its own blockshape component')
+    from .c03 import check_sizes
+    check_sizes(ctx, ht, 'C04.11', select=lambda f: f.module.name == 'conversion_utils')
+    ctx.floor('C04.11', 2, 'size formulas of the fresh-header writer (3D and 2D branch)')
 
 
 def _zip_dict(v):
